@@ -397,10 +397,91 @@ def gen_pair(rng, tier, ka, kb):
     return a, b
 
 
+def gen_est(rng, tier):
+    """one operand for the f32 estimators: every branch of impl_log2_bounds_for_uint (zero, power of two, <= 24 bits,
+    longer: the truncation to 24 bits and the shift addition), log2_bounds_large, the float estimator with exponents
+    around and far beyond 2^24 (where `exponent as f32` rounds) and with cancellation, the rational one"""
+    r = rng.below(100)
+    if r < 30:
+        kind = rng.choice(["u", "i"])
+        c = rng.below(8)
+        if c == 0:
+            v = rng.choice([0, 1, 2, 3, 5, 7, 10, 255, 256])
+        elif c == 1:
+            nb = rng.choice([2, 8, 23, 24, 25, 26, 31, 32, 33, 63, 64, 65, 100, 127, 128])
+            v = rng.choice([1 << (nb - 1), (1 << nb) - 1, (1 << (nb - 1)) + 1, (1 << (nb - 1)) | rng.bits(nb - 1)])
+        elif c == 2:    # 24-bit prefix patterns: all ones (shifted + 1 = 2^24), 2^23, ties
+            nb = rng.range(25, 128)
+            pre = rng.choice([(1 << 24) - 1, 1 << 23, (1 << 23) + 1, (1 << 24) - 2, (1 << 23) | rng.bits(23)])
+            v = (pre << (nb - 24)) | rng.choice([0, 1, (1 << (nb - 24)) - 1, rng.bits(nb - 24)])
+        elif c == 3:    # more than two words: log2_bounds_large
+            nb = rng.choice([129, 130, 191, 192, 193, 256, 1000, 5000, rng.range(129, 3000)])
+            v = (1 << (nb - 1)) | rng.bits(nb - 1)
+            if rng.chance(1, 4):
+                v = 1 << (nb - 1)
+        else:
+            v = gen_int(rng, tier)
+        if kind == "u":
+            v = abs(v)
+        elif rng.chance(1, 2):
+            v = -v
+        return "%s:%s" % (kind, hx(v))
+    if r < 75:
+        kind = rng.choice(FK + GK)
+        base = int(kind[1:])
+        c = rng.below(10)
+        if c == 0:
+            return special_tok(rng, kind)
+        sig = rng.choice([1, 3, 7, 99999, rng.bits(24) + 1, rng.bits(60) + 1, rng.bits(100) + 1, rng.bits(127) + 1, gen_mag(rng, rng.choice([1, 2, 3, 5]))])
+        if c == 1:      # cancellation: significand about base^j, exponent -j
+            j = rng.range(1, 38 if base == 10 else 60)
+            sig = base ** j + rng.choice([1, -1, rng.bits(8) + 1, -(rng.bits(8) + 1)])
+            e = -j + rng.choice([0, 0, 0, 1, -1])
+        elif c < 4:     # the exponent no longer converts exactly
+            e = rng.choice([(1 << 24) + rng.bits(20), (1 << 24) + 1, (1 << 24) - 1, 1 << 24, (1 << 25) + 2, (1 << 25) + rng.bits(24), (1 << 26) - 2,
+                            rng.bits(40) + (1 << 24), rng.bits(62) + (1 << 24), (1 << 62) + rng.bits(60), (1 << 63) - 1 - rng.below(4)])
+            if rng.chance(1, 2):
+                e = -e
+        else:
+            e = rng.choice([0, 1, -1, 5, -5, rng.range(-60, 60), rng.range(-2000, 2000), rng.range(-(1 << 24), 1 << 24)])
+        if sig % base == 0:
+            sig += 1
+        if rng.chance(1, 3):
+            sig = -sig
+        if kind in FK:
+            return "%s:%x:%s:%s" % (kind, rng.choice([0, 3, 50]), hx(sig), hx(e))
+        return "%s:%s:%s" % (kind, hx(sig), hx(e))
+    kind = rng.choice(QK)
+    n = rng.choice([0, 1, -1, 3, rng.bits(24) + 1, rng.bits(64) + 1, rng.bits(127) + 1, gen_mag(rng, rng.choice([1, 2, 3, 4]))]) * rng.choice([1, -1])
+    d = rng.choice([1, 2, 3, 7, rng.bits(24) + 1, rng.bits(64) + 1, rng.bits(127) + 1, gen_mag(rng, rng.choice([1, 2, 3]))])
+    if rng.chance(1, 4) and n:     # cancellation: numerator and denominator nearly equal
+        d = abs(n) + rng.choice([1, -1, 2, 1 << 20])
+    return "%s:%s:%s" % (kind, hx(n), hx(max(1, d)))
+
+
+def small_tok(tok):
+    """does every integer part of the token fit a double word (the domain of the f32 estimator theorems)"""
+    f = tok.split(":")
+    k = f[0]
+    h = lambda s: abs(int(s, 16)) if s not in ("inf", "-inf") else 0
+    if k in ("u", "i") or k in UNS or k in SGN:
+        return h(f[1]) < (1 << 128)
+    if k in FK:
+        return h(f[2]) < (1 << 128)
+    if k in GK:
+        return h(f[1]) < (1 << 128)
+    if k in QK:
+        return h(f[1]) < (1 << 128) and h(f[2]) < (1 << 128)
+    return True
+
+
 def gen_cases(rng, tier, n):
     out = []
     while len(out) < n:
-        k = rng.below(100)
+        k = rng.below(112)
+        if k >= 100:
+            out.append("est %s" % gen_est(rng, tier))
+            continue
         if k < 58:
             ka, kb = ord_pair(rng)
             a, b = gen_pair(rng, tier, ka, kb)
@@ -473,4 +554,12 @@ def gen_cases(rng, tier, n):
                     f[-1] = hx(rng.choice([127, -127, 254, -254, 126, -126, 128, -128, -1, 127 * 9, -127 * 9]))
                     t = ":".join(f)
             out.append("hash %s" % t)
-    return out
+    # a share of the comparison cases also carries the libm table: the oracle then runs the bodies on the transcribed f32 estimators
+    res = []
+    for c in out:
+        f = c.split(" ")
+        if f[0] in ("ord", "abs", "cmp") and rng.chance(1, 3):
+            res.append(" ".join([f[0] + "f"] + f[1:]))
+        else:
+            res.append(c)
+    return res
